@@ -5,7 +5,7 @@ from statuslib import coq_term
 
 PID = "C16"
 TARGETS = ["Run.vo"]
-IMPORTS = "From VF Require Import Base Show Gen_Errors Status Run."
+IMPORTS = "From VF Require Import Base Show Gen_Errors Status Contrib Run."
 ALLOWED_AXIOMS = []
 PROFILES = ["debug"]
 ASSUMPTIONS = ["device wired as examples/minimal_scpi.rs (the library VecErrorQueue as error queue, scpi_stb/scpi_cls/scpi_opc); "
